@@ -400,10 +400,14 @@ class AsyncInotifyWrapper:
                         self.inotify.rm_watch(watch)
                         self.watches[path] = None
                         self.change_queue.put_nowait((Change.DELETED_PARENT, path))
+                    # The directory itself can be a match of a glob pattern (e.g. "data/*/").
+                    self.change_queue.put_nowait((Change.DELETED, path / ""))
                 else:
                     paths = [path]
                     while len(paths) > 0:
                         path = paths.pop(0)
+                        # The directory itself can be a match of a glob pattern (e.g. "data/*/").
+                        self.change_queue.put_nowait((Change.UPDATED, path / ""))
                         if path not in self.watches:
                             continue
                         if self.watches[path] is None:
